@@ -1,14 +1,21 @@
-// C19 (compdb output is valid JSON whatever bytes the commands contain): EncodeJSONString on symbolic strings.
+// C19 (compdb output is valid JSON whatever bytes the commands contain): EncodeJSONString and PrintJSONString on symbolic strings.
 #include "json.h"
 #include "verif.h"
+#include <stdio.h>
 #include <string>
 #ifndef VERIF_N
 #define VERIF_N 3
 #endif
+// the same through PrintJSONString, which is what -t compdb / compdb-targets call: what reaches stdout is decoded
+static bool decode(const std::string& out, std::string* decp);
 extern "C" int harness_main() {
   int len = (int)verif_nondet("len", 0, VERIF_N);
   std::string in((size_t)len, 'x');
   for (int i = 0; i < len; i++) in[i] = (char)verif_nondet("byte", 1, 255);
+  { verif_stdout_capture(); PrintJSONString(in); fflush(stdout); static char buf[256]; long n = verif_stdout_copy(buf, sizeof buf); std::string printed(buf, (size_t)n), dec2;
+    bool ok2 = decode(printed, &dec2);
+    VERIF_ASSERT(ok2, "C19: what PrintJSONString writes is a valid JSON string body");
+    VERIF_ASSERT(!ok2 || dec2 == in, "C19: decoding what PrintJSONString wrote gives back the original bytes"); }
   std::string out = EncodeJSONString(in);
   // RFC 8259 string body: no raw control character, no raw quote, backslash only as part of an escape; decoding gives the input back
   std::string dec; bool ok = true; size_t i = 0;
@@ -28,8 +35,29 @@ extern "C" int harness_main() {
     i += 2;
   }
   VERIF_ASSERT(ok, "C19: the encoded text is a valid JSON string body");
+  { std::string d3; bool ok3 = decode(out, &d3); VERIF_ASSERT(ok3 == ok && (!ok || d3 == dec), "harness: both decoders agree"); }
   VERIF_ASSERT(!ok || dec == in, "C19: decoding the JSON string gives back the original bytes");
   verif_reach(out.size() > in.size() ? "escaped" : "verbatim");
   verif_obs((long)out.size());
   return 0;
+}
+
+static bool decode(const std::string& out, std::string* decp) {
+  std::string& dec = *decp; bool ok = true; size_t i = 0;
+  while (ok && i < out.size()) {
+    unsigned char c = out[i];
+    if (c < 0x20 || c == '"') { ok = false; break; }
+    if (c != '\\') { dec.push_back((char)c); i++; continue; }
+    if (i + 1 >= out.size()) { ok = false; break; }
+    char e = out[i + 1];
+    if (e == 'b') dec.push_back('\b'); else if (e == 'f') dec.push_back('\f'); else if (e == 'n') dec.push_back('\n'); else if (e == 'r') dec.push_back('\r'); else if (e == 't') dec.push_back('\t');
+    else if (e == '\\' || e == '"' || e == '/') dec.push_back(e);
+    else if (e == 'u') {
+      if (i + 5 >= out.size()) { ok = false; break; }
+      int v = 0; for (int k = 2; k < 6; k++) { char h = out[i + k]; int d = h >= '0' && h <= '9' ? h - '0' : h >= 'a' && h <= 'f' ? h - 'a' + 10 : h >= 'A' && h <= 'F' ? h - 'A' + 10 : -1; if (d < 0) ok = false; v = v * 16 + d; }
+      if (v > 0xff) ok = false; dec.push_back((char)v); i += 6; continue;
+    } else { ok = false; break; }
+    i += 2;
+  }
+  return ok;
 }
